@@ -792,7 +792,7 @@ def do_concat(I, name, args, kwargs, node):
                 return Arr(ax, e.elem, e.space)
         return Top("concatenate")
     arrs = [a for a in items]
-    if any(not isinstance(a, Arr) for a in arrs) or not isinstance(axis, int):
+    if not arrs or any(not isinstance(a, Arr) for a in arrs) or not isinstance(axis, int):
         return Top("concatenate item")
     return concat_arrays(I, arrs, axis, node)
 
